@@ -319,7 +319,9 @@ def run_case(case):
 
 def mk_case(kind, rng, **kw):
     d = 2
-    return dict(kind=kind, d=d, opmap=oglib.rand_opmap(rng, range(0, 6), d, oid_identity=0), **kw)
+    # only the caller's identity id maps to the identity matrix; every other id (0 included) is a generic operator
+    oid = kw.get('oid_identity', 0)
+    return dict(kind=kind, d=d, opmap=oglib.rand_opmap(rng, sorted(set(range(0, 8)) | {oid}), d, oid_identity=oid), **kw)
 
 
 def search(tier, seed, hints, budget_s):
@@ -330,7 +332,8 @@ def search(tier, seed, hints, budget_s):
         if h['kind'] == 'correspondence' and isinstance(h['detail'], dict):
             op = h['detail']['op']
             if op.get('op') == 'og.from_optrees' and trees_in_domain(op['trees'], op['length']):
-                cands.append(mk_case('trees', rng, trees=op['trees'], length=op['length'], oid_identity=0))
+                cands.append(mk_case('trees', rng, trees=op['trees'], length=op['length'], oid_identity=op.get('oid_identity', 0)))
+                cands.append(mk_case('trees', rng, trees=op['trees'], length=op['length'], oid_identity=7))
             elif op.get('op') == 'og.from_automaton' and op['length'] >= 1:
                 cands.append(mk_case('aut', rng, aut=op))
             elif op.get('op') == 'og.chain':
@@ -345,7 +348,7 @@ def search(tier, seed, hints, budget_s):
         while True:
             for _ in range(100):
                 trees, L = oglib.gen_tree_list(rng)
-                yield mk_case('trees', rng, trees=trees, length=L, oid_identity=0)
+                yield mk_case('trees', rng, trees=trees, length=L, oid_identity=int(rng.choice([0, 0, 1, 7])))
             for _ in range(100):
                 yield mk_case('aut', rng, aut=oglib.gen_automaton(rng))
             for _ in range(20):
